@@ -35,6 +35,10 @@ def check_state(r, acc, desc, prefix):
         acc.candidate(kind=prefix + "buffer-stack-depth", input=desc, detail="%d buffers before, %d after" % (pre["buffers"], post["buffers"]))
     if len(post["callers"]) != len(pre["callers"]) or any(a is not b for a, b in zip(post["callers"], pre["callers"])):
         acc.candidate(kind=prefix + "caller-stack", input=desc, detail="caller stack %r -> %r" % ([getattr(x, "tag", x) for x in pre["callers"]], [getattr(x, "tag", x) for x in post["callers"]]))
+    if post.get("with_template") is not pre.get("with_template"):
+        acc.vcs += 1
+        acc.candidate(kind=prefix + "context-template", input=desc, detail="the context's template (lookup, error handling) is %r afterwards, was %r" % (
+            getattr(post.get("with_template"), "uri", None), getattr(pre.get("with_template"), "uri", None)))
     if post["nextcaller"] is not pre["nextcaller"]:
         acc.candidate(kind=prefix + "nextcaller", input=desc, detail="pending caller %r -> %r" % (getattr(pre["nextcaller"], "tag", None), getattr(post["nextcaller"], "tag", None)))
 
@@ -173,6 +177,32 @@ def on_handlers(p, r, exc, acc):
     acc.sample(dict(r["cfg"], outcome=list(r["res"]), handler_received=r["calls"]))
 
 
+
+CONTEXT_TEMPLATE_REPLAY = """
+# a template of another lookup is rendered into the running context, raises, and the exception is handled in the same def:
+# a later <%include> must still be resolved by the lookup of the template that is rendering
+from mako.lookup import TemplateLookup
+class Boom(Exception): pass
+def probe(i):
+    if i == 20: raise Boom()
+    return "#%d#" % i
+main, foreign = TemplateLookup(), TemplateLookup()
+main.put_string("inc", "inc-of-the-rendering-lookup"); foreign.put_string("inc", "INC-OF-THE-FOREIGN-LOOKUP")
+foreign.put_string("foreign", "N[${probe(20)}]")
+SRC = '<%def name="t()">a\\\\\\n% try:\\n<% other.render_context(context) %>\\\\\\n% except Boom:\\n!\\\\\\n% endtry\\n<%include file="inc"/></%def>${t()}'
+print(SRC)
+main.put_string("main", SRC)
+try:
+    out = main.get_template("main").render(other=foreign.get_template("foreign"), probe=probe, Boom=Boom)
+except Exception as e:
+    out = "raised %s: %s" % (type(e).__name__, e)
+print("rendered:", repr(out))
+bad = None if out == "aN[!inc-of-the-rendering-lookup" else "after the handled exception the context belongs to the abandoned template (its lookup resolves the include)"
+print("VIOLATED: " + bad if bad else "HOLDS")
+sys.exit(1 if bad else 0)
+"""
+
+
 def make_replay(c):
     i = c["input"] or {}
     if "handlers" in i:
@@ -193,6 +223,8 @@ print("VIOLATED: " + bad if bad else "HOLDS")
 sys.exit(1 if bad else 0)
 """.replace("__CASE__", repr(i))
         return (c["kind"], body, ("handlers", repr(sorted(i["handlers"].items(), key=str))))
+    if c["kind"].endswith("context-template"):
+        return (c["kind"], CONTEXT_TEMPLATE_REPLAY, ("context-template",))
     body = """
 sys.path.insert(0, "/verif")
 CASE = __CASE__
@@ -206,7 +238,7 @@ site, k, occ = CASE["site"], CASE["raise_at"], CASE["occurrence"]
 # uses its caller, other defs are called, and the body keeps rendering
 body = TEMPLATE + '''
 start|\\\\
-<%call expr="h___SITE__()">hb</%call>|<%call expr="wcaller()">after</%call>|${capture(plain)}|${who()}|end'''.replace("__SITE__", site)
+<%call expr="h___SITE__()">hb</%call>|<%call expr="wcaller()">after</%call>|${capture(plain)}|${who()}|<%include file="inc"/>|end'''.replace("__SITE__", site)
 lk = TemplateLookup(); lk.put_string("inc", INC); lk.put_string("main", body)
 seen = {}
 state = {"armed": True}
@@ -220,7 +252,8 @@ def dec(fn):
     def decorate(context, *a, **kw):
         context.write("<"); fn(*a, **kw); context.write(">"); return ""
     return decorate
-data = dict(probe=probe, up=lambda s: s.upper(), tf=lambda s: probe(9) + s.lower(), dec=dec, Boom=Boom, items=lambda m: (7,))
+lk2 = TemplateLookup(); lk2.put_string("foreign", "N[${probe(20)}]"); lk2.put_string("inc", "WRONG-LOOKUP")
+data = dict(probe=probe, up=lambda s: s.upper(), tf=lambda s: probe(9) + s.lower(), dec=dec, Boom=Boom, items=lambda m: (7,), other=lk2.get_template("foreign"))
 bad = None
 try:
     out = lk.get_template("main").render(**data)
@@ -229,14 +262,14 @@ except Exception as e:
 if out is not None:
     normal, on_raise = SITES[site]
     want_mid = on_raise.get(k, on_raise.get((k, occ)))
-    expect = "start|h" + want_mid + "![none]hbe|" + "W[#4#after#5#]|P[#1#]|none|end"
+    expect = "start|h" + want_mid + "![none]hbe|" + "W[#4#after#5#]|P[#1#]|none|I[#11#]|end"
     got = "".join(out.split())
     print("rendered:", repr(got)); print("expected:", repr(expect))
     if got != expect: bad = "output after the handled exception differs"
     # and the same Template renders correctly again
     state["armed"] = False; seen.clear()
     again = "".join(lk.get_template("main").render(**data).split())
-    if again != "start|h" + normal + "[none]hbe|W[#4#after#5#]|P[#1#]|none|end": bad = bad or "second render of the same Template is wrong: %r" % again
+    if again != "start|h" + normal + "[none]hbe|W[#4#after#5#]|P[#1#]|none|I[#11#]|end": bad = bad or "second render of the same Template is wrong: %r" % again
 print("VIOLATED: " + bad if bad else "HOLDS")
 sys.exit(1 if bad else 0)
 """.replace("__CASE__", repr(i)).replace("__KIND__", repr(c["kind"]))
